@@ -149,6 +149,17 @@ def hand_items(ids):
                                         Field("last", T.Option(I("u8")))], [[("rename_all", "camelCase")]]),
                           Variant("W", [Field("foo_bar", I("u8")), Field("fooBar", T.Bool)])],
       [[("tag", "t"), ("rename_all", "lowercase")]])
+    # identifiers and keys outside ASCII: `rename_all = lowercase` is str::to_lowercase (not ASCII lowercasing), and the
+    # did-you-mean / message code must cope with texts that first differ inside a multi-byte character
+    E("HUnicodeEnum", [Variant("\u00d6sterreich"), Variant("\u00c9tatsUnis"), Variant("\u0395\u03bb\u03bb\u03ac\u03b4\u03b1"), Variant("\u0420\u043e\u0441\u0441\u0438\u044f"),
+                       Variant("PlainOne"), Variant("C\u00f4teDIvoire", attrs=[[("rename", "CIV")]])], [[("rename_all", "lowercase")]])
+    E("HUnicodeEnumAsIs", [Variant("\u00d6sterreich"), Variant("\u00c9tatsUnis"), Variant("dog")])
+    E("HUnicodeTagged", [Variant("\u00dcbung", [Field("\u00dcberSchrift", T.String), Field("MaxWert", I("u8"), [[("default", None)]])], [[("rename_all", "lowercase")]]),
+                         Variant("\u0401\u043b\u043a\u0430"), Variant("Zwei", [Field("\u00c4nderung", T.Bool)])],
+      [[("tag", "art"), ("rename_all", "lowercase")], [("deny", None)]])
+    S("HUnicodeKeys", [Field("first_name", T.String, [[("rename", "pr\u00e9nom")]]), Field("pet", I("u8"), [[("rename", "dog-\U0001f436")]]),
+                       Field("\u00dcberSchrift", T.Bool, [[("default", None)]]), Field("na\u00efve_cl\u00e9", T.Option(I("u8")))],
+      [[("deny", None)], [("rename_all", "lowercase")]])
     # a wide struct (more fields than the small-slice thresholds of the standard sorts: 20) with skipped fields in the
     # middle: declaration order of the non-skipped fields must survive in the accepted-keys list and the missing reports
     wide = []
@@ -189,7 +200,7 @@ def hand_items(ids):
 IDENT_POOL = ["a", "b", "x", "id", "name", "my_field", "hello_world", "http_url2", "_lead", "a__b", "xY", "fooBar", "f1",
               "is_ok", "trail_", "v2x", "ABc", "kind", "value", "data2d", "r", "snake_case_name", "MAX", "i18n_key"]
 VARIANT_POOL = ["A", "B", "Alpha", "BetaGamma", "HTTPServer", "X2y", "Unit", "WithData", "Other", "V1", "Foo_bar", "C3po"]
-RENAMES = ["renamed", "x", "type", "goodbye_world", "ID", "a.b", "weird key", "myField", "é"]
+RENAMES = ["renamed", "x", "type", "goodbye_world", "ID", "a.b", "weird key", "myField", "é", "prénom", "naïve_clé", "dog-\U0001f436", "Überschrift"]
 
 
 def base_types(rng, items, allow_items=True, depth=0):
@@ -761,6 +772,12 @@ def near_miss(key, rng):
     if len(key) >= 3:
         ops += [key[:1] + "\U0001f600" + key[2:], key[:1] + "\U0001f600\U0001f600" + key[3:], key[:2] + "\u20ac" + key[2:], key[:-1] + "\u00e9",
                 key[:1] + "\U0001f600" + key[1:] + "\U0001f600", key + "\u20ac\u20ac"]
+    # a different character of the same UTF-8 length sharing its leading bytes (the texts first differ INSIDE a character)
+    nonascii = [i for i, ch in enumerate(key) if ord(ch) > 127]
+    if nonascii:
+        i = rng.choice(nonascii)
+        sib = chr(ord(key[i]) ^ 1)
+        ops += [key[:i] + sib + key[i + 1:]] * 4
     ops = [o for o in ops if o != key]
     return rng.choice(ops) if ops else key + "x"
 
